@@ -72,6 +72,8 @@ type bnAn struct {
 	assume map[ssa.Value]int64 // hypothesis for phis under evaluation (coinductive)
 	assumeHi map[ssa.Value]int64
 	hiBusy   map[ssa.Value]bool
+	dead     map[*ssa.BasicBlock]bool
+	lenBusy  map[*ssa.Phi]bool
 }
 
 func dominatesEdge(d *ssa.BasicBlock, succ int, b *ssa.BasicBlock) bool {
@@ -731,7 +733,78 @@ func (a *bnAn) nonDecreasingStep(e ssa.Value, phi *ssa.Phi, pred *ssa.BasicBlock
 }
 
 // lenLo: lower bound of len(x).
+// deadBlock: a block only entered through an edge whose condition is the
+// constant that does not take it (if false { ... } left by a constant such as
+// runtime.GOOS == "windows").
+func (a *bnAn) deadBlock(b *ssa.BasicBlock) bool {
+	if a.dead == nil {
+		a.dead = map[*ssa.BasicBlock]bool{}
+		live := map[*ssa.BasicBlock]bool{}
+		var visit func(b *ssa.BasicBlock)
+		visit = func(b *ssa.BasicBlock) {
+			if live[b] {
+				return
+			}
+			live[b] = true
+			if len(b.Instrs) > 0 {
+				if ifi, ok := b.Instrs[len(b.Instrs)-1].(*ssa.If); ok {
+					if k, ok := ifi.Cond.(*ssa.Const); ok && k.Value != nil && k.Value.Kind() == constant.Bool {
+						if constant.BoolVal(k.Value) {
+							visit(b.Succs[0])
+						} else {
+							visit(b.Succs[1])
+						}
+						return
+					}
+				}
+			}
+			for _, s := range b.Succs {
+				visit(s)
+			}
+		}
+		if len(a.fn.Blocks) > 0 {
+			visit(a.fn.Blocks[0])
+		}
+		for _, bb := range a.fn.Blocks {
+			if !live[bb] {
+				a.dead[bb] = true
+			}
+		}
+	}
+	return a.dead[b]
+}
+
 func (a *bnAn) lenLo(x ssa.Value, at *ssa.BasicBlock, lenCall *ssa.Call) int64 {
+	// a phi: the minimum over the edges that can be taken
+	if ph, ok := x.(*ssa.Phi); ok && !a.lenBusy[ph] {
+		if a.lenBusy == nil {
+			a.lenBusy = map[*ssa.Phi]bool{}
+		}
+		a.lenBusy[ph] = true
+		m := int64(bnTop)
+		for i, e := range ph.Edges {
+			pb := ph.Block().Preds[i]
+			if a.deadBlock(pb) || e == ssa.Value(ph) {
+				continue
+			}
+			l := a.lenLo(e, pb, nil)
+			if l < m {
+				m = l
+			}
+		}
+		delete(a.lenBusy, ph)
+		if m < bnTop/2 && m > 0 {
+			return m
+		}
+	}
+	// replacing separators by a non-empty string keeps a non-empty string non-empty
+	if n := bnCallee(x); n == "strings.Replace" || n == "strings.ReplaceAll" {
+		if call, ok := x.(*ssa.Call); ok && len(call.Call.Args) >= 3 {
+			if l, ok := ssaConstLen(call.Call.Args[2]); ok && l >= 1 && a.lenLo(call.Call.Args[0], call.Block(), nil) >= 1 {
+				return 1
+			}
+		}
+	}
 	// Split results have at least one element
 	if n := bnCallee(x); n == "strings.Split" || n == "bytes.Split" || n == "strings.SplitN" || n == "bytes.SplitN" {
 		return 1
@@ -1101,7 +1174,7 @@ func bnBounds(c *Ctx, a *flAgg) {
 							cursor++
 							continue
 						}
-						if why := bnException(f, op); why != "" {
+						if why := bnException(c, f, op); why != "" {
 							ord["contract"]++
 							a.ok("BN-neg", fmt.Sprintf("%s/contract#%d", funcKey(f), ord["contract"]), "contract table: "+why, ins.Pos())
 							continue
@@ -1213,10 +1286,8 @@ func isCursorOperand(v ssa.Value, seen map[ssa.Value]bool) bool {
 }
 
 // bnException: the contract table of BN-neg (one line of reason each).
-func bnException(f *ssa.Function, op ssa.Value) string {
+func bnException(c *Ctx, f *ssa.Function, op ssa.Value) string {
 	switch funcKey(f) {
-	case "stack.getGOPATHs":
-		return "getGOPATHs processes the GOPATH environment variable (configuration), not the input stream"
 	case "stack.augmentCall":
 		// types[len(types)-1] under extra: the variadic flag is only ever set in
 		// an iteration of extractArgumentsType that also appends a type
